@@ -23,44 +23,7 @@ set_option linter.unusedSectionVars false
 /-- chunk type used in the `example`s and `witness_*` theorems: a chunk is its length -/
 local instance natChunk : Chunk Nat := ⟨id⟩
 
-/-! ## Spec-level vocabulary -/
-
-/-- the observable history after running `ops` on a fresh `Payload::create(eof)` pair -/
-def hist (eof : Bool) (ops : List (Op β)) : Hist β :=
-  (Hist.init eof).runWith ops (Chan.outs (Chan.create eof) ops)
-
-/-- the channel state after `ops` -/
-def state (eof : Bool) (ops : List (Op β)) : Chan β := Chan.exec (Chan.create eof) ops
-
-/-- what the next operation `op` returns / wakes after `ops` -/
-def next (eof : Bool) (ops : List (Op β)) (op : Op β) : Out β := (Chan.step (state eof ops) op).2
-
-/-- the chunks a trace handed to the reader -/
-def yieldedOf : List (Out β) → List β
-  | [] => []
-  | ⟨.poll (.data b), _⟩ :: os => b :: yieldedOf os
-  | _ :: os => yieldedOf os
-
-/-- the chunks accepted by `feed_data`, read off the operation sequence alone: those issued while
-both handles still exist -/
-def fedChunks : Bool → Bool → List (Op β) → List β
-  | _, _, [] => []
-  | s, r, .feedData b :: ops => if s && r then b :: fedChunks s r ops else fedChunks s r ops
-  | _, r, .dropSender :: ops => fedChunks false r ops
-  | s, _, .dropReader :: ops => fedChunks s false ops
-  | s, r, _ :: ops => fedChunks s r ops
-
-def isUnread : Op β → Bool
-  | .unreadData _ => true
-  | _ => false
-
 /-! ## Master statement: every trace of the model is accepted by the spec automaton -/
-
-theorem sim (eof : Bool) (ops : List (Op β)) : Sim (state eof ops) (hist eof ops) :=
-  sim_run _ _ ops (sim_create eof)
-
-theorem inv (eof : Bool) (ops : List (Op β)) : Inv (state eof ops) :=
-  inv_run _ ops (inv_create eof)
 
 /-- **All four clauses at once**: for every op sequence, every single observation is acceptable
 after the history before it (`StepOk`: exact data, truthful error / end / Pending, reader woken by
@@ -85,45 +48,6 @@ theorem C07_len_exact (eof : Bool) (ops : List (Op β)) :
 
 /-! ## 1. Exact bytes, in order -/
 
-theorem outs_length (c : Chan β) (ops : List (Op β)) : (Chan.run c ops).2.length = ops.length := by
-  induction ops generalizing c with
-  | nil => rfl
-  | cons op ops ih => simp [Chan.run, ih]
-
-theorem yieldedOf_append (xs ys : List (Out β)) : yieldedOf (xs ++ ys) = yieldedOf xs ++ yieldedOf ys := by
-  induction xs with
-  | nil => rfl
-  | cons o xs ih =>
-    obtain ⟨r, ws⟩ := o
-    cases r with
-    | poll p => cases p <;> simp [yieldedOf, ih]
-    | _ => simp [yieldedOf, ih]
-
-theorem yielded_step (c : Chan β) (h : Hist β) (op : Op β) (s : Sim c h) :
-    (h.step op (Chan.step c op).2).yielded = h.yielded ++ yieldedOf [(Chan.step c op).2] := by
-  have hr := s.rAlive
-  cases op <;>
-    simp only [Hist.step, Hist.observe, Chan.step, Chan.senderOp] <;>
-    (repeat' split) <;> simp_all [yieldedOf]
-
-theorem yielded_run (c : Chan β) (h : Hist β) (ops : List (Op β)) (s : Sim c h) :
-    (h.runWith ops (Chan.run c ops).2).yielded = h.yielded ++ yieldedOf (Chan.run c ops).2 := by
-  induction ops generalizing c h with
-  | nil => simp [Chan.run, Hist.runWith, yieldedOf]
-  | cons op ops ih =>
-    simp only [Chan.run, Hist.runWith]
-    rw [ih _ _ (sim_step c h op s), yielded_step c h op s]
-    have : yieldedOf ((Chan.step c op).2 :: (Chan.run (Chan.step c op).1 ops).2)
-        = yieldedOf [(Chan.step c op).2] ++ yieldedOf (Chan.run (Chan.step c op).1 ops).2 :=
-      yieldedOf_append [_] _
-    rw [this, List.append_assoc]
-
-/-- the history's `yielded` is exactly the list of chunks the trace's polls returned -/
-theorem hist_yielded (eof : Bool) (ops : List (Op β)) :
-    (hist eof ops).yielded = yieldedOf (Chan.outs (Chan.create eof) ops) := by
-  have := yielded_run (Chan.create eof) (Hist.init eof) ops (sim_create eof)
-  simpa [hist, Chan.outs, Hist.init] using this
-
 /-- **bytes_exact (ghost log)**: after any history, what the reader has been handed, followed by
 what is still queued, is the ghost log: the accepted `feed_data` chunks in order, with
 `unread_data` re-insertions at the reader's position. Nothing lost, duplicated or reordered. -/
@@ -131,23 +55,6 @@ theorem C07_bytes_exact (eof : Bool) (ops : List (Op β)) :
     yieldedOf (Chan.outs (Chan.create eof) ops) ++ (state eof ops).inner.items = (hist eof ops).log := by
   rw [← hist_yielded]
   exact (sim eof ops).log.symm
-
-theorem log_run_no_unread (h : Hist β) (ops : List (Op β)) (os : List (Out β))
-    (hl : os.length = ops.length) (hu : ops.all (fun op => !isUnread op) = true) :
-    (h.runWith ops os).log = h.log ++ fedChunks h.sAlive h.rAlive ops := by
-  induction ops generalizing h os with
-  | nil => simp [Hist.runWith, fedChunks]
-  | cons op ops ih =>
-    cases os with
-    | nil => simp at hl
-    | cons o os =>
-      simp only [List.length_cons, Nat.add_right_cancel_iff] at hl
-      simp only [List.all_cons, Bool.and_eq_true] at hu
-      simp only [Hist.runWith]
-      rw [ih _ _ hl hu.2]
-      cases op <;>
-        simp only [Hist.step, Hist.observe, fedChunks, isUnread] at hu ⊢ <;>
-        (repeat' split) <;> simp_all
 
 /-- **bytes_exact, read off the operations alone**: without `unread_data`, the chunks handed to the
 reader followed by the queued ones are exactly the `feed_data` arguments issued while both
@@ -198,26 +105,6 @@ theorem C07_truthful_end (eof : Bool) (ops : List (Op β)) (w : WakerId)
   exact this
 
 example : (next (β := Nat) false [.feedEof] (.pollNext 0)).res = Res.poll .eos := by decide
-
-def isFeedEof : Op β → Bool
-  | .feedEof => true
-  | _ => false
-
-theorem eofSignalled_run (h : Hist β) (ops : List (Op β)) (os : List (Out β))
-    (he : (h.runWith ops os).eofSignalled = true) :
-    h.eofSignalled = true ∨ ops.any isFeedEof = true := by
-  induction ops generalizing h os with
-  | nil => left; simpa [Hist.runWith] using he
-  | cons op ops ih =>
-    cases os with
-    | nil => left; simpa [Hist.runWith] using he
-    | cons o os =>
-      simp only [Hist.runWith] at he
-      rcases ih _ _ he with h1 | h1
-      · cases op <;>
-          simp only [Hist.step, Hist.observe] at h1 <;>
-          (try (repeat' split at h1)) <;> simp_all [isFeedEof]
-      · right; simp [h1]
 
 /-- a clean end is never reported on a channel created open unless `feed_eof` was called:
 "never a clean end alone for a body that was cut short" -/
@@ -317,5 +204,193 @@ theorem C07_paused_feeder_is_woken_by_next_poll (eof : Bool) (ops : List (Op β)
     simp only [Inner.registerIo] at hi
     rw [hi] at hfull
     simp [payloadMaxBufferSize] at hfull
+
+/-! ## Ordering of the ending; the sender vanishing; error before clean end -/
+
+/-- **poll_next ordering**: from any state with a live reader, polling (with any wakers) hands
+over the queued chunks in order, one per poll, and only then reports the ending: the set error if
+there is one, else the clean end if `eof`, else Pending. -/
+theorem C07_drain_order (eof : Bool) (ops : List (Op β)) (ws : List WakerId) (w' : WakerId)
+    (hr : (state eof ops).readerAlive = true)
+    (hl : ws.length = (state eof ops).inner.items.length) :
+    (Chan.outs (state eof ops) (ws.map .pollNext ++ [.pollNext w'])).map (·.res) =
+      (state eof ops).inner.items.map (fun d => Res.poll (.data d)) ++
+        [.poll (endAnswer (state eof ops).inner)] :=
+  drain_aux _ ws w' hr hl
+
+/-- **sender vanishes first ⇒ Incomplete after the queued data**: in any history in which no end
+and no error was ever signalled, dropping the sender makes the reader receive exactly the queued
+chunks and then `Incomplete` — never a clean end, never Pending. -/
+theorem C07_sender_vanishes_incomplete (ops : List (Op β)) (ws : List WakerId) (w' : WakerId)
+    (hs : (state false ops).senderAlive = true) (hr : (state false ops).readerAlive = true)
+    (he : (hist false ops).eofSignalled = false) (hv : (hist false ops).errEver = false)
+    (hl : ws.length = (state false ops).inner.items.length) :
+    (Chan.outs (state false ops) (.dropSender :: (ws.map .pollNext ++ [.pollNext w']))).map (·.res) =
+      .unit :: ((state false ops).inner.items.map (fun d => Res.poll (.data d)) ++
+        [.poll (.error .incomplete)]) := by
+  have s := sim false ops
+  have hclosed : (state false ops).inner.senderClosed = false := by rw [s.closed, he, hv]; rfl
+  have herr : (state false ops).inner.err = none := by
+    cases h : (state false ops).inner.err with
+    | none => rfl
+    | some e =>
+      have := (inv false ops).err_closed (by rw [h]; rfl)
+      rw [hclosed] at this; cases this
+  generalize state false ops = c at *
+  have hstep : (Chan.step c .dropSender).2.res = .unit ∧
+      (Chan.step c .dropSender).1.readerAlive = true ∧
+      (Chan.step c .dropSender).1.inner.items = c.inner.items ∧
+      (Chan.step c .dropSender).1.inner.err = some .incomplete := by
+    simp only [Chan.step, hs, hr, Inner.closeSender, hclosed, Inner.setError, Inner.wake]
+    refine ⟨by simp, by simp, ?_, ?_⟩ <;> (repeat' split) <;> simp_all
+  obtain ⟨h1, h2, h3, h4⟩ := hstep
+  have := drain_aux (Chan.step c .dropSender).1 ws w' h2 (by rw [h3]; exact hl)
+  simp only [Chan.outs, Chan.run, List.map_cons] at this ⊢
+  rw [this, h1, h3]
+  simp [endAnswer, h4]
+
+example : (state (β := Nat) false [.feedData 5, .feedData 6]).senderAlive = true ∧
+    (hist (β := Nat) false [.feedData 5, .feedData 6]).eofSignalled = false ∧
+    (hist (β := Nat) false [.feedData 5, .feedData 6]).errEver = false := by decide
+
+/-- **a set error is delivered before any clean end**: if `set_error(e)` is accepted after `ops₁`
+and, after any further operations `ops₂`, a poll reports the clean end, then one of the polls in
+`ops₂` reported an error. -/
+theorem C07_error_before_clean_end (eof : Bool) (ops₁ ops₂ : List (Op β)) (e : PErr) (w : WakerId)
+    (hs : (state eof ops₁).senderAlive = true) (hr : (state eof ops₁).readerAlive = true)
+    (hr2 : (state eof (ops₁ ++ .setError e :: ops₂)).readerAlive = true)
+    (hres : (next eof (ops₁ ++ .setError e :: ops₂) (.pollNext w)).res = .poll .eos) :
+    ∃ o ∈ Chan.outs (state eof (ops₁ ++ [.setError e])) ops₂, ∃ e', o.res = .poll (.error e') := by
+  have hend := (C07_truthful_end eof _ w hr2 hres).2.2.2
+  have hsplit : ops₁ ++ .setError e :: ops₂ = (ops₁ ++ [.setError e]) ++ ops₂ := by simp
+  have hmid : (hist eof (ops₁ ++ [.setError e])).errOutstanding = some e := by
+    have s := sim eof ops₁
+    rw [hist_snoc]
+    simp [Hist.step, Hist.observe, s.sAlive, s.rAlive, hs, hr]
+  rw [hsplit, hist_append] at hend
+  exact errOutstanding_cleared _ _ _ e hmid hend
+
+/-- the same without ghost state: a poll said Pending with waker `w` (and did not wake `w` itself);
+the very next data / end / error / first sender drop wakes `w`. -/
+theorem C07_reader_wake_direct (eof : Bool) (ops : List (Op β)) (w : WakerId) (op : Op β)
+    (hr : (state eof ops).readerAlive = true)
+    (hpend : (next eof ops (.pollNext w)).res = .poll .pending)
+    (hnw : w ∉ (next eof ops (.pollNext w)).wakes)
+    (hev : readerEvent (hist eof (ops ++ [.pollNext w])) op = true) :
+    w ∈ (next eof (ops ++ [.pollNext w]) op).wakes := by
+  apply C07_reader_wake eof _ op w _ hev
+  have s := sim eof ops
+  rw [hist_snoc]
+  simp [Hist.step, Hist.observe, s.rAlive, hr, hpend, Hist.unpark, hnw]
+
+def isReaderOp : Op β → Bool
+  | .pollNext _ => true
+  | .unreadData _ => true
+  | .dropReader => true
+  | _ => false
+
+/-- DESIGN's formulation: the reader is parked on `w`; if an operation of the other side makes
+the next poll ready, that operation woke `w`. -/
+theorem C07_reader_wake_if_ready (eof : Bool) (ops : List (Op β)) (op : Op β) (w w' : WakerId)
+    (hp : (hist eof ops).parkedReader = some w) (hop : isReaderOp op = false)
+    (hready : (next eof (ops ++ [op]) (.pollNext w')).res ≠ .poll .pending) :
+    w ∈ (next eof ops op).wakes := by
+  obtain ⟨hr, ht, hi, he, hf⟩ := (sim eof ops).parkedR w hp
+  have hst : state eof (ops ++ [op]) = (Chan.step (state eof ops) op).1 := by
+    simp only [state, exec_append, exec_singleton]
+  unfold next at hready ⊢
+  rw [hst] at hready
+  generalize state eof ops = c at *
+  obtain ⟨inner, sa, ra⟩ := c
+  obtain ⟨len, eof', err, closed, nr, items, task, io⟩ := inner
+  simp only at hr ht hi he hf
+  subst hr ht hi he hf
+  cases op <;> cases sa <;> cases closed <;> cases nr <;>
+    simp_all [isReaderOp, Chan.step, Chan.senderOp, Inner.feedData, Inner.feedEof, Inner.setError,
+      Inner.closeSender, Inner.wake, Inner.wakeIo, Inner.register, Inner.registerIo, Inner.pollNext]
+
+/-- the same for the feeder, without ghost state: `need_read` said Pause with waker `wf`; the very
+next poll of a live reader wakes `wf` (it necessarily pops a chunk). See also
+`C07_paused_feeder_is_woken_by_next_poll`. -/
+theorem C07_feeder_wake_direct (eof : Bool) (ops : List (Op β)) (wf w : WakerId)
+    (hres : (next eof ops (.needRead wf)).res = .status .pause) :
+    wf ∈ (next eof (ops ++ [.needRead wf]) (.pollNext w)).wakes := by
+  obtain ⟨b, hb⟩ := C07_paused_feeder_is_woken_by_next_poll eof ops wf w hres
+  simp [hb]
+
+/-! ## Characterisation lemmas (observations, not claims) -/
+
+/-- **O1** (DESIGN §6): dropping the reader wakes nobody — the two waker slots are dropped with
+`Inner` — whether or not a feeder is parked. -/
+theorem C07_O1_drop_reader_wakes_nobody (eof : Bool) (ops : List (Op β)) :
+    (next eof ops .dropReader).wakes = [] := by
+  unfold next
+  simp only [Chan.step]
+  split <;> rfl
+
+/-- … and once the reader is gone, no operation ever wakes anybody again. -/
+theorem C07_after_reader_drop_no_wakes (eof : Bool) (ops : List (Op β)) (op : Op β)
+    (hr : (state eof ops).readerAlive = false) : (next eof ops op).wakes = [] := by
+  unfold next
+  cases op <;> simp only [Chan.step, Chan.senderOp, hr] <;> (repeat' split) <;> simp_all
+
+/-- no operation wakes more than one waker -/
+theorem C07_wakes_at_most_one (eof : Bool) (ops : List (Op β)) (op : Op β) :
+    (next eof ops op).wakes.length ≤ 1 := by
+  unfold next
+  generalize state eof ops = c
+  cases op <;>
+    simp only [Chan.step, Chan.senderOp, Inner.feedData, Inner.feedEof, Inner.setError,
+      Inner.closeSender, Inner.wake, Inner.wakeIo, Inner.pollNext] <;>
+    (repeat' split) <;> simp_all
+
+/-- witness for O1: feeder paused at 40 000 buffered bytes on waker 1, reader dropped: nobody is
+woken, the feeder is still parked in the history, and only a fresh `need_read` tells it (Dropped). -/
+theorem witness_O1 :
+    (Chan.outs (Chan.create false) [Op.feedData (40000 : Nat), .needRead 1, .dropReader, .needRead 1]).map
+        (fun o => (o.res, o.wakes)) =
+      [(.unit, []), (.status .pause, []), (.unit, []), (.status .dropped, [])] ∧
+    (hist false [Op.feedData (40000 : Nat), .needRead 1, .dropReader]).parkedFeeder = some 1 := by
+  decide
+
+/-- witness (observation O7): after an error has been delivered the stream does not terminate —
+the next poll parks — and the sender's drop then wakes nobody (nothing new to report). -/
+theorem witness_pending_after_error :
+    (Chan.outs (Chan.create false) [Op.setError (β := Nat) .overflow, .pollNext 0, .pollNext 0, .dropSender]).map
+        (fun o => (o.res, o.wakes)) =
+      [(.unit, []), (.poll (.error .overflow), []), (.poll .pending, []), (.unit, [])] ∧
+    (hist false [Op.setError (β := Nat) .overflow, .pollNext 0, .pollNext 0]).parkedReader = some 0 := by
+  decide
+
+/-- witness: a second `set_error` before delivery replaces the first; only the last is reported -/
+theorem witness_error_overwritten :
+    (Chan.outs (Chan.create false)
+        [Op.setError (β := Nat) .overflow, .setError .encodingCorrupted, .pollNext 0, .pollNext 0]).map (·.res) =
+      [.unit, .unit, .poll (.error .encodingCorrupted), .poll .pending] := by
+  decide
+
+/-- witness: the dispatcher's read-EOF path `set_error(Incomplete); feed_eof()` — data, then the
+error, then the clean end -/
+theorem witness_error_then_eof :
+    (Chan.outs (Chan.create false)
+        [Op.feedData (5 : Nat), .setError .incomplete, .feedEof, .pollNext 0, .pollNext 0, .pollNext 0]).map (·.res) =
+      [.unit, .unit, .unit, .poll (.data 5), .poll (.error .incomplete), .poll .eos] := by
+  decide
+
+/-! ## Segmentation independence (byte level) -/
+
+/-- two feeding schedules that carry the same bytes — chunked differently, interleaved differently
+with polls / need_read / drops of the sender — hand the reader the same bytes once drained. -/
+theorem C07_segmentation_independent (e₁ e₂ : Bool) (ops₁ ops₂ : List (Op (List UInt8)))
+    (hu₁ : ops₁.all (fun op => !isUnread op) = true) (hu₂ : ops₂.all (fun op => !isUnread op) = true) :
+    let _ : Chunk (List UInt8) := ⟨List.length⟩
+    (fedChunks true true ops₁).flatten = (fedChunks true true ops₂).flatten →
+    (state e₁ ops₁).inner.items = [] → (state e₂ ops₂).inner.items = [] →
+    (yieldedOf (Chan.outs (Chan.create e₁) ops₁)).flatten = (yieldedOf (Chan.outs (Chan.create e₂) ops₂)).flatten := by
+  intro inst hfed h1 h2
+  have a := C07_bytes_exact_bytes e₁ ops₁ hu₁
+  have b := C07_bytes_exact_bytes e₂ ops₂ hu₂
+  simp only [h1, h2, List.flatten_nil, List.append_nil] at a b
+  rw [a, b, hfed]
 
 end ActixModel.Payload.C07
